@@ -26,6 +26,8 @@ mod tok {
         F64(u64),
         I(i128),
         Bool(bool),
+        /// a unit variant of an enum: (index, name) as the type announces them
+        Variant(u32, &'static str),
     }
     #[derive(Debug)]
     pub struct TErr(pub String);
@@ -81,10 +83,14 @@ mod tok {
             Ok(SerTs(self.0))
         }
         ser_no!(serialize_char(char) -> (), serialize_str(&str) -> (), serialize_bytes(&[u8]) -> (), serialize_none() -> (), serialize_unit() -> (),
-            serialize_unit_struct(&'static str) -> (), serialize_unit_variant(&'static str, u32, &'static str) -> (),
+            serialize_unit_struct(&'static str) -> (),
             serialize_seq(Option<usize>) -> Impossible<(), TErr>, serialize_tuple(usize) -> Impossible<(), TErr>,
             serialize_tuple_variant(&'static str, u32, &'static str, usize) -> Impossible<(), TErr>, serialize_map(Option<usize>) -> Impossible<(), TErr>,
             serialize_struct(&'static str, usize) -> Impossible<(), TErr>, serialize_struct_variant(&'static str, u32, &'static str, usize) -> Impossible<(), TErr>);
+        fn serialize_unit_variant(self, _name: &'static str, index: u32, variant: &'static str) -> Result<(), TErr> {
+            self.0.push(Tok::Variant(index, variant));
+            Ok(())
+        }
         fn serialize_some<T: ?Sized + Serialize>(self, _: &T) -> Result<(), TErr> {
             Result::Err(TErr("unexpected some".into()))
         }
@@ -145,6 +151,7 @@ mod tok {
                     }
                 }
                 Tok::End => Result::Err(TErr("unexpected end".into())),
+                Tok::Variant(_, _) => Result::Err(TErr("unexpected enum variant".into())),
             }
         }
         /// like length-prefixed binary formats (bincode, postcard) the carrier hands out exactly the
@@ -185,6 +192,44 @@ mod tok {
             }
         }
     }
+    /// a unit-variant carrier: identifies the variant by index (bincode / postcard style), by name
+    /// (serde_json style) or by the bytes of the name
+    pub struct VarDe { pub index: u32, pub name: &'static str, pub mode: u8 }
+    struct IdDe(u32, &'static str, u8);
+    impl<'de> de::Deserializer<'de> for IdDe {
+        type Error = TErr;
+        fn deserialize_any<V: Visitor<'de>>(self, visitor: V) -> Result<V::Value, TErr> {
+            match self.2 { 0 => visitor.visit_u64(self.0 as u64), 1 => visitor.visit_str(self.1), _ => visitor.visit_bytes(self.1.as_bytes()) }
+        }
+        serde::forward_to_deserialize_any! {
+            bool i8 i16 i32 i64 i128 u8 u16 u32 u64 u128 f32 f64 char str string bytes byte_buf option unit unit_struct newtype_struct seq tuple
+            tuple_struct map struct enum identifier ignored_any
+        }
+    }
+    impl<'de> de::EnumAccess<'de> for VarDe {
+        type Error = TErr;
+        type Variant = UnitOnly;
+        fn variant_seed<S: DeserializeSeed<'de>>(self, seed: S) -> Result<(S::Value, UnitOnly), TErr> {
+            Ok((seed.deserialize(IdDe(self.index, self.name, self.mode))?, UnitOnly))
+        }
+    }
+    pub struct UnitOnly;
+    impl<'de> de::VariantAccess<'de> for UnitOnly {
+        type Error = TErr;
+        fn unit_variant(self) -> Result<(), TErr> { Ok(()) }
+        fn newtype_variant_seed<T: DeserializeSeed<'de>>(self, _: T) -> Result<T::Value, TErr> { Result::Err(TErr("not a unit variant".into())) }
+        fn tuple_variant<V: Visitor<'de>>(self, _: usize, _: V) -> Result<V::Value, TErr> { Result::Err(TErr("not a unit variant".into())) }
+        fn struct_variant<V: Visitor<'de>>(self, _: &'static [&'static str], _: V) -> Result<V::Value, TErr> { Result::Err(TErr("not a unit variant".into())) }
+    }
+    impl<'de> de::Deserializer<'de> for VarDe {
+        type Error = TErr;
+        fn deserialize_any<V: Visitor<'de>>(self, visitor: V) -> Result<V::Value, TErr> { visitor.visit_enum(self) }
+        fn deserialize_enum<V: Visitor<'de>>(self, _: &'static str, _: &'static [&'static str], visitor: V) -> Result<V::Value, TErr> { visitor.visit_enum(self) }
+        serde::forward_to_deserialize_any! {
+            bool i8 i16 i32 i64 i128 u8 u16 u32 u64 u128 f32 f64 char str string bytes byte_buf option unit unit_struct newtype_struct seq tuple
+            tuple_struct map struct identifier ignored_any
+        }
+    }
     pub fn from_tokens<'de, T: Deserialize<'de>>(toks: &[Tok]) -> Result<T, TErr> {
         let mut d = De { toks, pos: 0 };
         let v = T::deserialize(&mut d)?;
@@ -202,7 +247,7 @@ mod run {
     use harness::flat::*;
     use harness::lat::digits;
     use harness::rep::*;
-    use serde::{de::DeserializeOwned, Serialize};
+    use serde::{de::DeserializeOwned, Deserialize, Serialize};
     use serde_json::json;
     use std::io::Write;
     use std::sync::Mutex;
@@ -551,6 +596,39 @@ mod run {
         all_serde!(Vec2, Vec3, Vec3A, Vec4, DVec2, DVec3, DVec4, Quat, DQuat, Mat2, Mat3, Mat3A, Mat4, DMat2, DMat3, DMat4, Affine2, Affine3A, DAffine2, DAffine3);
         all_serde!(I8Vec2, I8Vec3, I8Vec4, U8Vec2, U8Vec3, U8Vec4, I16Vec2, I16Vec3, I16Vec4, U16Vec2, U16Vec3, U16Vec4, IVec2, IVec3, IVec4, UVec2, UVec3, UVec4);
         all_serde!(I64Vec2, I64Vec3, I64Vec4, U64Vec2, U64Vec3, U64Vec4, USizeVec2, USizeVec3, USizeVec4);
+        // the EulerRot enum: every variant announces its declaration index and its name, and comes back
+        // from each of the three ways a format may identify a variant
+        rep.sweep("EulerRot/serde unit variants/24 variants x 3 identification modes", 24 * 3, |idx, acc| {
+            use harness::shapes::Shapes;
+            let all = <EulerRot as Shapes>::shapes();
+            let (v, mode) = (all[(idx % 24) as usize], (idx / 24) as u8);
+            acc.eval(true, idx);
+            let name: &'static str = Box::leak(format!("{:?}", v).into_boxed_str());
+            match to_tokens(&v) {
+                Ok(t) => {
+                    if t != vec![Tok::Variant(v as u32, name)] { acc.fail("EulerRot::serialize", format!("{:?}: tokens {:?}, want Variant({}, {name})", v, t, v as u32)); }
+                }
+                Err(e) => acc.fail("EulerRot::serialize", format!("{:?}: {e}", v)),
+            }
+            match EulerRot::deserialize(VarDe { index: v as u32, name, mode }) {
+                Ok(b) => if b != v { acc.fail("EulerRot::deserialize", format!("{:?} identified by {} came back as {:?}", v, ["index", "name", "name bytes"][mode as usize], b)); },
+                Err(e) => acc.fail("EulerRot::deserialize", format!("{:?} identified by {}: {e}", v, ["index", "name", "name bytes"][mode as usize])),
+            }
+            if mode == 0 {
+                match serde_json::to_string(&v) {
+                    Ok(s) => {
+                        if s != format!("\"{name}\"") { acc.fail("EulerRot::serde_json", format!("{:?}: json {s}", v)); }
+                        match serde_json::from_str::<EulerRot>(&s) { Ok(b) if b == v => {}, other => acc.fail("EulerRot::serde_json round trip", format!("{:?}: json {s} came back as {:?}", v, other.map_err(|e| e.to_string()))) }
+                    }
+                    Err(e) => acc.fail("EulerRot::serde_json", format!("{e}")),
+                }
+            }
+        });
+        // out-of-range index / unknown name are rejected
+        rep.sweep("EulerRot/serde unknown variants rejected", 3, |idx, acc| {
+            acc.eval(true, idx);
+            if EulerRot::deserialize(VarDe { index: 24, name: "XYZW", mode: idx as u8 }).is_ok() { acc.fail("EulerRot::deserialize(unknown)", format!("variant 24 / `XYZW` identified by mode {idx} was accepted")); }
+        });
         serde_mask_checks!(rep, (BVec2, 2), (BVec3, 3), (BVec4, 4));
         // the scalar-math build defines its own BVec3A / BVec4A without serde impls (a compile-time
         // difference, outside what an execution can show); the SIMD types are checked where they exist,
